@@ -330,7 +330,10 @@ impl Model {
             }
             Wpc::GotRequest => {
                 n.compile_version = s.doc_version;
-                n.checks_this_compile = if s.completed_version == Some(s.doc_version) {
+                // a request that carries a document version (didChange) marks its file as modified and
+                // is always compiled in full; a version-less request (didOpen / didSave) for a text that
+                // was already compiled successfully takes the cached path
+                n.checks_this_compile = if s.wreq.is_none() && s.completed_version == Some(s.doc_version) {
                     self.abort_checks_cached
                 } else {
                     self.abort_checks
